@@ -8,7 +8,7 @@
    Done (Some (v, rest)) <-> RVal v rest  (that is `ImpRand.of_rres`, constructor by constructor). *)
 From Bnum Require Import Base Prim.
 From Bnum.Model Require Import Digit DigitPrims LoopPrims Core Imp ImpRand.
-From Bnum.Model Require AddSub Mul Div Bits Shift Cast Convert Random.
+From Bnum.Model Require AddSub Mul Div Bits Shift Cast Convert Ops Random.
 From Bnum.Generated Require Import RandGen.
 Import Random.
 
@@ -367,6 +367,23 @@ Lemma rand_I_uniform_sample dbg w n fuel u s : length (u_low u) = n -> length (u
 Proof.
   intros Hl Hr. unfold RandGen.I_uniform_sample. rewrite Nat2Z.id.
   rewrite <- (rand_uniform_sample_gen true dbg w n fuel u s Hl Hr). reflexivity.
+Qed.
+
+(* ---------- the `+ 1` of `MAX - range + 1` ---------- *)
+
+(* Model/Random.v keeps its own copy of `impl Add<$Digit> for $BUint<N>` (Panic for N = 0).  The copy the loop translator's
+   `Loops.add_digit` is tied to (Proofs/LoopsTieC01.v: loops_add_digit) is Ops.U_Add_digit: the two agree on every non-empty operand,
+   which closes the chain source -> Loops.add_digit -> Ops.U_Add_digit = Random.U_add_digit for the call in the generated code. *)
+Lemma rand_add_digit_carry_is_Ops w ds c : add_digit_carry w ds c = Ops.add_digit_carry w ds c.
+Proof.
+  revert c. induction ds as [|d r IH]; intros c; [reflexivity|]. cbn [add_digit_carry Ops.add_digit_carry].
+  destruct c; [|reflexivity]. destruct (u_ovf_add w d 1) as [s c']. rewrite IH. reflexivity.
+Qed.
+
+Lemma rand_add_digit_is_Ops w a d : a <> [] -> U_add_digit w a d = Ret (Ops.U_Add_digit w a d).
+Proof.
+  destruct a as [|x r]; [congruence|]. intros _. cbn [U_add_digit Ops.U_Add_digit].
+  destruct (carrying_add w x d false) as [s c]. rewrite rand_add_digit_carry_is_Ops. reflexivity.
 Qed.
 
 (* ---------- all of it ---------- *)
